@@ -73,6 +73,18 @@ def case_pp(ctx, cfg):
                 if e is not None or not close(d, want, 1e-11):
                     ctx.fail(f"dist:point-point:{dim}d:close-points", "dist", {**inputs0, "q": qn, "weight": w, "order": tag}, want, e if e is not None else d)
                     return
+    # points with coordinates of size 30 .. 50 whose RELATIVE difference is below 1e-5 (absolute 1.2e-4 .. 4e-4)
+    if tuple(p) == tuple(pts[0]):
+        big = (30.0, 40.0) if dim == 2 else (30.0, 40.0, 50.0)
+        for off, want in (((2.0**-13,) + (0.0,) * (dim - 1), 2.0**-13), ((3 * 2.0**-13, 4 * 2.0**-13) + (0.0,) * (dim - 2), 5 * 2.0**-13), ((0.0,) * (dim - 1) + (2.0**-12,), 2.0**-12)):
+            a, b = G.Point(*big), G.Point(*[x + y for x, y in zip(big, off)])
+            for x, y, tag in ((a, b, "pq"), (b, a, "qp")):
+                d, e = ctx.call(G.dist, x, y)
+                ctx.trace()
+                ctx.state((dim, "big-close", off, tag))
+                if e is not None or not close(d, want, 1e-10):
+                    ctx.fail(f"dist:point-point:{dim}d:close-points-with-large-coordinates", "dist", {"dim": dim, "p": big, "offset": off, "order": tag}, want, e if e is not None else d)
+                    return
     # collection path: p single against all q
     Q = G.PointCollection(np.array([list(q) + [1] for q in pts], dtype=float))
     d, e = ctx.call(G.dist, P(G, p), Q)
@@ -146,6 +158,9 @@ def case_ph(ctx, cfg):
                 q = [float(x) for x in p]
                 q[k] += step
                 want = abs(h[k] * step) / nn
+                if want < 1e-6:
+                    ctx.undecided += 1  # within a factor 100 of the library's absolute tolerance: "incident" is a legitimate answer (R4)
+                    continue
                 d, e = ctx.call(G.dist, H, G.Point(np.array(q + [1.0])))
                 ctx.trace()
                 ctx.state((dim, h, p, "near", k, step))
